@@ -14,7 +14,7 @@ from concurrent.futures import ProcessPoolExecutor
 
 from vlib.loader import Repo, AnalysisError
 from vlib import indic_run as IR
-from vlib.indic_vals import NA, D
+from vlib.indic_vals import NA, D, Undecided
 
 EXEMPT = {"minmax": "documented: an extremum needs `order` confirming candles"}
 N_DEFAULT = 60
@@ -147,7 +147,152 @@ def analyse_one(args):
     return name, rel, res
 
 
+def growing_normalisers(repo: Repo):
+    """public indicators whose module raises a number to a NEGATED power that grows with the input length
+    (`x ** (-arange(n))`, `x ** -(n - 1)`): the magnitude of such a factor is unbounded in the length of the input"""
+    def growing_negative_power(n) -> bool:
+        if not (isinstance(n, ast.BinOp) and isinstance(n.op, ast.Pow)):
+            return False
+        ex = n.right
+        txt = ast.unparse(ex)
+        grows = any(isinstance(c, ast.Call) and isinstance(c.func, ast.Attribute) and c.func.attr == "arange" for c in ast.walk(ex)) or \
+            any(isinstance(c, ast.Call) and isinstance(c.func, ast.Name) and c.func.id == "len" for c in ast.walk(ex)) or "shape[0]" in txt
+        neg = any(isinstance(c, ast.UnaryOp) and isinstance(c.op, ast.USub) for c in ast.walk(ex)) or \
+            any(isinstance(c, ast.Constant) and isinstance(c.value, (int, float)) and not isinstance(c.value, bool) and c.value < 0 for c in ast.walk(ex))
+        return grows and neg
+    # the expected count on a repaired tree is zero: the recogniser itself is exercised on a positive and a negative example
+    pos = ast.parse("(1 - alpha) ** (-1 * np.arange(n))", mode="eval").body
+    neg_ = ast.parse("(1 - alpha) ** np.arange(n)", mode="eval").body
+    if not growing_negative_power(pos) or growing_negative_power(neg_):
+        raise AnalysisError("C13-R2: the recogniser of length-dependent normalisers does not match its own examples")
+    out = []
+    for name, rel, fn in IR.public_indicators(repo):
+        tree = repo.module(rel).tree
+        hit = None
+        for n in ast.walk(tree):
+            if growing_negative_power(n):
+                hit = ast.unparse(n)
+        if hit and any(a.arg == "sequential" for a in fn.args.args):
+            out.append((name, rel, fn, hit))
+    return out
+
+
+def check_length_dependent_normaliser(repo: Repo, rep):
+    rid = "C13-R2"
+    rep.rule(rid, "no series may be scaled by a factor whose magnitude grows without bound in the LENGTH of the input (x ** (-arange(n))): "
+                  "every indicator that contains such a power is interpreted on 130 and on 4000 candles; an element that is a computed "
+                  "number on the short input must not be a constant (NaN / inf / 0 after overflow of the factor) on the long one - that "
+                  "would make value i depend on how many candles follow it")
+    n_short, n_long, probe = 130, 4000, 100
+    cands = growing_normalisers(repo)
+    for name, rel, fn, expr in cands:
+        a = IR.run_indicator(repo, rel, fn, n_short, True, max_steps=40_000_000)
+        b = IR.run_indicator(repo, rel, fn, n_long, True, max_steps=40_000_000)
+        if a[0] != "ok" or b[0] != "ok":
+            rep.undecided_item(f"{name}: length-dependent normaliser `{expr}` - not interpretable on {n_short} / {n_long} candles ({a[0]} / {b[0]})")
+            continue
+        fa, fb = dict(IR.fields_of(a[1])), dict(IR.fields_of(b[1]))
+        for f in fa:
+            x, y = fa[f], fb.get(f)
+            if not (isinstance(x, NA) and isinstance(y, NA) and x.ndim == 1 and y.ndim == 1 and len(x.data) > probe and len(y.data) > probe):
+                continue
+            if not isinstance(x.data[probe], D):
+                continue
+            # the same candles (the witness valuations of different lengths share their prefix), evaluated through both expressions
+            from vlib.indic_vals import eval_dag
+            try:
+                (vn, vs), (_, vl) = IR.valuations(n_short)[0], IR.valuations(n_long)[0]
+                xv = eval_dag(x.data[probe], vs)
+                yv = eval_dag(y.data[probe], vl) if isinstance(y.data[probe], D) else y.data[probe]
+            except Undecided as e:
+                rep.undecided_item(f"{name}.{f}: length-dependent normaliser - {e}")
+                continue
+            finite = lambda v: isinstance(v, (int, float)) and v == v and abs(v) != float("inf")
+            if finite(xv) and (not finite(yv) or abs(xv - yv) > 1e-6 * max(1.0, abs(xv))):
+                rep.violation(rid, f"{name}|{f}|length-dependent-normaliser",
+                              f"indicator {name}: element {probe} of series '{f}' is {xv!r} when computed on {n_short} candles and {yv!r} when the same candles are followed by "
+                              f"{n_long - n_short} more: `{expr}` in {rel} over- / underflows with the length of the input, so the value of candle {probe} depends on how many candles follow it")
+            rep.instance(rid, f"{name}|{f}", {"indicator": name, "field": f, "expression": expr})
+    rep.extra["length_dependent_normalisers"] = [c[0] for c in cands]
+
+
+def prefix_one(args):
+    root, name, rel = args
+    repo = Repo(root)
+    fn = repo.func(rel, name) if repo.has_func(rel, name) else None
+    if fn is None:
+        for pn, prel, pfn in IR.public_indicators(repo):
+            if pn == name:
+                fn = pfn
+    from vlib.indic_vals import eval_dag
+    out = []
+    for n1, n2 in ((45, 60), (60, 131)):
+        a = IR.run_indicator(repo, rel, fn, n1, True)
+        b = IR.run_indicator(repo, rel, fn, n2, True)
+        if a[0] != "ok" or b[0] != "ok":
+            out.append((n1, n2, "undecided", f"{a[0]} / {b[0]}"))
+            continue
+        fa, fb = dict(IR.fields_of(a[1])), dict(IR.fields_of(b[1]))
+        (vn, vs), (_, vl) = IR.valuations(n1)[0], IR.valuations(n2)[0]
+        bad = None
+        for f in fa:
+            x, y = fa[f], fb.get(f)
+            if not (isinstance(x, NA) and isinstance(y, NA) and x.ndim == 1 and y.ndim == 1 and len(x.data) == n1 and len(y.data) == n2):
+                continue
+            for i in range(n1):
+                p, q = x.data[i], y.data[i]
+                if isinstance(p, D) and isinstance(q, D) and p.h == q.h:
+                    continue
+                try:
+                    pv = eval_dag(p, vs) if isinstance(p, D) else p
+                    qv = eval_dag(q, vl) if isinstance(q, D) else q
+                except Undecided as e:
+                    bad = ("undecided", f, i, str(e))
+                    break
+                nan = lambda v: v is None or (isinstance(v, float) and v != v)
+                if nan(pv) and nan(qv):
+                    continue
+                if not all(isinstance(v, (int, float, bool)) or v is None for v in (pv, qv)):
+                    if pv == qv:
+                        continue            # labels (e.g. 'buy' / 'sell'): compared as they are
+                    bad = ("differs", f, i, (pv, qv))
+                    break
+                if nan(pv) != nan(qv) or abs(pv - qv) > 1e-7 * max(1.0, abs(pv), abs(qv)):
+                    bad = ("differs", f, i, (pv, qv))
+                    break
+            if bad:
+                break
+        out.append((n1, n2, bad[0] if bad else "ok", bad))
+    return name, rel, out
+
+
+def check_prefix_consistency(repo: Repo, rep, skip=()):
+    rid = "C13-R3"
+    rep.rule(rid, "prefix consistency of the extracted expressions: every indicator (default parameters) is interpreted on 45 / 60 and 60 / "
+                  "131 candles; element i of the shorter run and element i of the longer run must be the same expression (equal "
+                  "structural hash) or evaluate to the same number on witness candles that share the prefix - a value must not depend on "
+                  "the LENGTH of the input (global normalisers, fallbacks for short inputs that leak into the series)")
+    inds = [(n, rel, fn) for n, rel, fn in IR.public_indicators(repo) if any(a.arg == "sequential" for a in fn.args.args)]
+    pub = {fn.name: n for n, rel, fn in inds}
+    with ProcessPoolExecutor(max_workers=min(16, os.cpu_count() or 1)) as ex:
+        results = list(ex.map(prefix_one, [(repo.root, fn.name, rel) for n, rel, fn in inds], chunksize=4))
+    for fname_, rel, res in results:
+        name = pub.get(fname_, fname_)
+        if name in EXEMPT or name in skip:
+            continue            # (a look-ahead already reported by R1 shows as a length dependence too)
+        for n1, n2, status, info in res:
+            if status == "undecided":
+                continue            # the dependence rule reports what cannot be interpreted
+            if status == "differs":
+                _, f, i, (pv, qv) = info
+                rep.violation(rid, f"{name}|{f}|length-dependent", f"indicator {name} (defaults) in {rel}: element {i} of series '{f}' is {pv!r} on {n1} candles and {qv!r} when the "
+                                                                  f"same candles are followed by {n2 - n1} more: the value depends on the length of the input")
+            rep.instance(rid, f"{name}|{n1}/{n2}")
+    rep.floor(rid, 200)
+
+
 def run(repo: Repo, rep, tier: str):
+    rep.guarded(check_length_dependent_normaliser, repo, rep)
     rid = "C13-R1"
     rep.rule(rid, "dependence analysis of every public indicator (sequential=True; default parameters and shifted periods): no element "
                   "i of any returned series may depend - through data or control flow - on a candle j > i")
@@ -182,6 +327,8 @@ def run(repo: Repo, rep, tier: str):
                     worst = (f, lead, at)
             rep.instance(rid, key, {"indicator": name, "variant": vname, "fields": [(f, ln, lead) for f, ln, lead, at in fields]} if (decided % 25 == 1 or worst) else None)
     rep.extra["indicators_analysed"] = len(inds)
+    lookahead = {v["key"].split("|")[1] for v in list(rep.violations) + list(rep.known_hits) if v["key"].startswith(rid + "|")}
+    rep.guarded(check_prefix_consistency, repo, rep, lookahead)
     rep.extra["runs_decided"] = decided
     rep.extra["runs_undecided"] = undecided
     rep.extra["exempt"] = EXEMPT
